@@ -164,7 +164,7 @@ Lemma accumulate_spec t en sn pe :
   if nnumber en <? nnumber sn then Err e_start_greater
   else if s_desc (abs t) (nhash sn) (nhash en)
        then match upto (nhash sn) (map nhash (rev pe)) with Some l => Ok l | None => Panic end
-       else Err e_not_ancestor.
+       else Err e_start_not_found.
 Proof.
   intros (U & Hn & _) Hpe Hsn. unfold accumulate, accumulate_pre.
   destruct (N.ltb_spec (nnumber en) (nnumber sn)) as [Hlt|Hge]; auto.
